@@ -33,7 +33,7 @@ CHECKS.append(chk("C02", "exploration",
     "Model-based: the same multi-writer runner biased to long per-key sequences (insert, partial updates, delete, re-insert) at non-monotone unique write times over 1-3 writers; after every statement the issuing writer's outcome class and rows, and at checkpoints all merged observers, must equal the operation-based reference model (row status by latest INSERT/DELETE, each column by latest assignment), which is by construction independent of how statements are spread over writers.",
     "stateful property-based testing (rapid) against an independent operation-based reference model"))
 
-CHECKS.append(chk( "exploration",
+CHECKS.append(chk("C07", "exploration",
     "Function level: generated triples of key values (boundary-seeded, ties by construction) must make the key comparison reflexive, antisymmetric, transitive and equal in sign to SQLite's own comparison (native SQLite and an independent harness comparator, cross-checked against each other); keys that compare equal must get the same tree level for every rows-per-object setting. SQL level: tables filled with keys that tie across representations are compared statement by statement with a native WITHOUT ROWID table (outcome classes, ORDER BY, point and range lookups, after reconnect).",
     "property-based testing (rapid): algebraic laws + differential against native SQLite"))
 
